@@ -24,6 +24,13 @@ static int c11_open(const char *path, int flags, int mode)
 #define open(p, f, m) c11_open((p), (f), (m))
 
 int close(int fd) { (void) fd; return nondet_int(); }
+/* errno is the thread-local libc object *__errno_location(): a call cannot be an assigns
+ * target, so the unit sees it as the ghost verif_errno (per-thread in reality, hence no
+ * shared state; the repaired readdir loop of move_thdir_to_final writes it). */
+#undef errno
+int verif_errno;
+#define errno verif_errno
+
 int rmdir(const char *path) { (void) path; return nondet_int(); }   /* errno: arbitrary (left as it is) */
 int remove(const char *path) { (void) path; return nondet_int(); }
 
